@@ -582,12 +582,19 @@ func (w *World) Balance(n int, addr string) (spice.Melange, error) {
 // Filler grows the DAG at node n by cnt data-only vertices (admitted without an ancestor walk) and, if
 // deliver is set, gives each to every other node straight away so all nodes stay identical.
 func (w *World) Filler(n, cnt int, deliver bool) error {
-	for i := 0; i < cnt; i++ {
+	done, fails := 0, 0
+	for i := 0; done < cnt; i++ {
 		tx := w.MakeTx(1+(i%max(1, w.Cfg.Users)), 0, spice.Melange{}, 8)
 		r := w.ProposeTx(n, tx)
 		if r.Err != nil {
-			return fmt.Errorf("filler %d: %w", i, r.Err)
+			// a proposal legitimately fails while it drops invalid tentative tips; keep going
+			fails++
+			if fails > 40 || errors.Is(r.Err, ErrStuck) || IsPanic(r.Err) {
+				return fmt.Errorf("filler %d: %w", i, r.Err)
+			}
+			continue
 		}
+		done++
 		if deliver {
 			for j := range w.Nodes {
 				if j != n {
